@@ -558,4 +558,754 @@ theorem orBothNonNeg_tot {h : Heap} {x y : HIR} (vx : VR h x) (vy : VR h y) {Z :
       · have := flo a e; have := x1.1; omega
       · rw [ehi] at e; cases e; exact pMax.1
 
+/-! ### `bitMask` and `andOneNegOneNonNeg` -/
+
+/-- the `smallBitMasks` objects hold the table's values -/
+def MasksOK (h : Heap) : Prop :=
+  ∀ i v, Gen.C06.smallBitMasks[i]? = some v → h.get (aMask i) = v
+
+theorem MasksOK.ext {h h' : Heap} (m : MasksOK h) (g : GlobalsOK h) (e : Ext h h') : MasksOK h' := by
+  intro i v hv
+  have hi : i < Gen.C06.smallBitMasks.length := by
+    rcases List.getElem?_eq_some_iff.1 hv with ⟨hlt, _⟩
+    exact hlt
+  have : aMask i < h.size := by
+    have := g.1
+    simp only [aMask, nGlobals] at *
+    omega
+  rw [e.get this]
+  exact m i v hv
+
+theorem globalsHeap_masks : MasksOK globalsHeap := by
+  intro i v hv
+  have hi : i < Gen.C06.smallBitMasks.length := by
+    rcases List.getElem?_eq_some_iff.1 hv with ⟨hlt, _⟩
+    exact hlt
+  simp only [Heap.get, aMask, globalsHeap]
+  have : (2 + i) = (#[Gen.C06.one, Gen.C06.minusOne] : Array Int).size + i := by simp
+  rw [this, Array.getElem?_append_right (by simp)]
+  simp [hv]
+
+/-- `bitMask` : a valid pointer to an object holding the value model's mask — either a
+package-level object or a new one -/
+theorem bitMask_tot {h : Heap} (g : GlobalsOK h) (m : MasksOK h) (n0 n1 : Nat) :
+    Tot (bitMask n0 n1) h (fun a h' => a < h'.size ∧ h'.get a = Interval.bitMask n0 n1) := by
+  unfold bitMask Interval.bitMask
+  refine Tot.ite (fun c => ?_) (fun c => ?_)
+  · have hget : Gen.C06.smallBitMasks[if n0 < n1 then n1 else n0]? =
+        some (Gen.C06.smallBitMasks[if n0 < n1 then n1 else n0]'c) := List.getElem?_eq_getElem c
+    refine Tot.pure _ ⟨?_, ?_⟩
+    · have := g.1
+      simp only [aMask, nGlobals] at *
+      omega
+    · dsimp only
+      rw [hget]
+      exact m _ _ hget
+  · have hnone : Gen.C06.smallBitMasks[if n0 < n1 then n1 else n0]? = none := by
+      rw [List.getElem?_eq_none_iff]; omega
+    refine Tot.mono (Tot.alloc _) ?_
+    rintro a h1 x1 ⟨rfl, s1, g1⟩
+    refine ⟨by omega, ?_⟩
+    dsimp only
+    rw [hnone]
+    exact g1
+
+theorem bigIntNewSet_fresh_tot (h : Heap) (p : Option Addr) :
+    Tot (bigIntNewSet p) h (fun z h' => (∀ a, z = some a → h.size ≤ a) ∧ BoundIs (valO h p) z h') := by
+  unfold bigIntNewSet
+  split
+  · exact Tot.pure _ ⟨fun _ e => (by cases e), by simp, rfl⟩
+  · refine Tot.bind_load _ ?_
+    refine Tot.bind (Tot.alloc _) ?_
+    rintro z h2 x2 ⟨rfl, s2, g2⟩
+    refine Tot.pure _ ⟨fun a e => by cases e; exact Nat.le_refl _, ?_, ?_⟩
+    · simp only [VO_some]; omega
+    · simp only [valO, Option.map_some, g2]
+
+theorem bigIntNewNot_fresh_tot (h : Heap) (p : Option Addr) :
+    Tot (bigIntNewNot p) h (fun z h' =>
+      (∀ a, z = some a → h.size ≤ a) ∧ BoundIs ((valO h p).map inot) z h') := by
+  unfold bigIntNewNot
+  split
+  · exact Tot.pure _ ⟨fun _ e => (by cases e), by simp, rfl⟩
+  · refine Tot.bind_load _ ?_
+    refine Tot.bind (Tot.alloc _) ?_
+    rintro z h2 x2 ⟨rfl, s2, g2⟩
+    refine Tot.pure _ ⟨fun a e => by cases e; exact Nat.le_refl _, ?_, ?_⟩
+    · simp only [VO_some]; omega
+    · simp only [valO, Option.map_some, g2]
+
+theorem andOneNegOneNonNeg_tot {h : Heap} (g : GlobalsOK h) (mk : MasksOK h) {neg non : HIR}
+    (vn : VR h neg) (vo : VR h non) {Z : IR}
+    (hZ : Interval.andOneNegOneNonNeg (viewAt h neg) (viewAt h non) = some Z) :
+    Tot (andOneNegOneNonNeg neg non) h (FreshRangeIs h.size Z) := by
+  unfold andOneNegOneNonNeg
+  refine Tot.bind_view _ ?_
+  refine Tot.bind_view _ ?_
+  unfold Interval.andOneNegOneNonNeg at hZ
+  refine Tot.ite (fun c => ?_) (fun c => ?_)
+  · rw [if_pos c] at hZ; cases hZ
+  rw [if_neg c] at hZ
+  obtain ⟨nl, nh⟩ := neg
+  obtain ⟨ol, oh⟩ := non
+  obtain ⟨vnl, vnh⟩ := vn
+  obtain ⟨vol, voh⟩ := vo
+  cases nl with
+  | none =>
+    simp only [viewAt, Option.map_none, Option.some.injEq] at hZ
+    subst hZ
+    refine Tot.bind (Tot.alloc _) ?_
+    rintro z h1 x1 ⟨rfl, s1, g1⟩
+    refine Tot.bind (bigIntNewSet_fresh_tot h1 oh) ?_
+    rintro w h2 x2 ⟨fw, vw, ew⟩
+    refine Tot.pure _ ⟨?_, ?_, ⟨?_, vw⟩, ?_⟩
+    · intro a e; cases e; exact Nat.le_refl _
+    · intro a e; have := fw a e; omega
+    · simp only [VO_some]; have := x2.1; omega
+    · have : h2.get h.size = 0 := by rw [x2.get (by omega)]; exact g1
+      simp only [viewAt_eq, valO, Option.map_some, this]
+      congr 1
+      rw [← valO, ew, valO_ext voh x1]
+      rfl
+  | some nlo =>
+    have hnlo : nlo < h.size := vnl nlo rfl
+    cases nh with
+    | none => simp [viewAt] at hZ
+    | some nhi =>
+    have hnhi : nhi < h.size := vnh nhi rfl
+    cases ol with
+    | none => simp [viewAt] at hZ
+    | some olo =>
+    have holo : olo < h.size := vol olo rfl
+    simp only [viewAt, Option.map_some] at hZ
+    refine Tot.bind_load _ ?_
+    refine Tot.bind_load _ ?_
+    cases oh with
+    | none =>
+      simp only [Option.map_none] at hZ
+      cases hW : Interval.andBothNonNeg
+          ⟨some (iand (Interval.bitMask (bitLen (h.get nlo)) (bitLen (h.get olo))) (h.get nlo)),
+           some (iand (Interval.bitMask (bitLen (h.get nlo)) (bitLen (h.get olo))) (h.get nhi))⟩
+          ⟨some (h.get olo), some (Interval.bitMask (bitLen (h.get nlo)) (bitLen (h.get olo)))⟩ with
+      | none => rw [hW] at hZ; simp at hZ
+      | some W =>
+      rw [hW] at hZ
+      simp only [Option.map_some, Option.some.injEq] at hZ
+      subst hZ
+      refine Tot.bind_load _ ?_
+      refine Tot.bind (bitMask_tot g mk _ _) ?_
+      rintro mask h1 x1 ⟨vm, em⟩
+      refine Tot.bind_load _ ?_
+      refine Tot.bind (Tot.alloc _) ?_
+      rintro b0 h2 x2 ⟨rfl, s2, g2⟩
+      refine Tot.bind (Tot.alloc _) ?_
+      rintro b1 h3 x3 ⟨rfl, s3, g3⟩
+      have x13 := x2.trans x3
+      have x03 := x1.trans x13
+      have hW3 : Interval.andBothNonNeg (viewAt h3 ⟨some h1.size, some h2.size⟩)
+          (viewAt h3 ⟨some olo, some mask⟩) = some W := by
+        have q0 : h3.get h1.size = iand (Interval.bitMask (bitLen (h.get nlo)) (bitLen (h.get olo))) (h.get nlo) := by
+          rw [x3.get (by omega), g2, em]
+        have q1 : h3.get h2.size = iand (Interval.bitMask (bitLen (h.get nlo)) (bitLen (h.get olo))) (h.get nhi) := by
+          rw [g3, em]
+        have q2 : h3.get olo = h.get olo := x03.get holo
+        have q3 : h3.get mask = Interval.bitMask (bitLen (h.get nlo)) (bitLen (h.get olo)) := by
+          rw [x13.get vm, em]
+        simp only [viewAt, Option.map_some, q0, q1, q2, q3]
+        exact hW
+      have t := andBothNonNeg_tot (h := h3) (x := ⟨some h1.size, some h2.size⟩)
+        (y := ⟨some olo, some mask⟩)
+        ⟨by simp only [VO_some]; omega, by simp only [VO_some]; omega⟩
+        ⟨by simp only [VO_some]; have := x03.1; omega,
+         by simp only [VO_some]; have := x13.1; omega⟩ hW3
+      refine Tot.bind t ?_
+      rintro w h4 x4 ⟨fl, fh, vw, ew⟩
+      refine Tot.pure _ ⟨?_, ?_, ⟨vw.1, by simp⟩, ?_⟩
+      · intro a e; have := fl a e; have := x03.1; omega
+      · intro a e; cases e
+      · simp only [viewAt_eq] at ew ⊢
+        rw [← ew]
+        rfl
+    | some ohi =>
+      have hohi : ohi < h.size := voh ohi rfl
+      simp only [Option.map_some] at hZ
+      refine Tot.bind_load _ ?_
+      refine Tot.bind (bitMask_tot g mk _ _) ?_
+      rintro mask h1 x1 ⟨vm, em⟩
+      refine Tot.bind_load _ ?_
+      refine Tot.bind (Tot.alloc _) ?_
+      rintro b0 h2 x2 ⟨rfl, s2, g2⟩
+      refine Tot.bind (Tot.alloc _) ?_
+      rintro b1 h3 x3 ⟨rfl, s3, g3⟩
+      have x13 := x2.trans x3
+      have x03 := x1.trans x13
+      have hW3 : Interval.andBothNonNeg (viewAt h3 ⟨some h1.size, some h2.size⟩)
+          (viewAt h3 ⟨some olo, some ohi⟩) = some Z := by
+        have q0 : h3.get h1.size = iand (Interval.bitMask (bitLen (h.get nlo)) (bitLen (h.get ohi))) (h.get nlo) := by
+          rw [x3.get (by omega), g2, em]
+        have q1 : h3.get h2.size = iand (Interval.bitMask (bitLen (h.get nlo)) (bitLen (h.get ohi))) (h.get nhi) := by
+          rw [g3, em]
+        have q2 : h3.get olo = h.get olo := x03.get holo
+        have q3 : h3.get ohi = h.get ohi := x03.get hohi
+        simp only [viewAt, Option.map_some, q0, q1, q2, q3]
+        exact hZ
+      have t := andBothNonNeg_tot (h := h3) (x := ⟨some h1.size, some h2.size⟩)
+        (y := ⟨some olo, some ohi⟩)
+        ⟨by simp only [VO_some]; omega, by simp only [VO_some]; omega⟩
+        ⟨by simp only [VO_some]; have := x03.1; omega,
+         by simp only [VO_some]; have := x03.1; omega⟩ hW3
+      refine Tot.mono t ?_
+      rintro w h4 x4 p
+      exact p.mono (by have := x03.1; omega)
+
+/-! ### the De Morgan detour -/
+
+theorem notSwap_tot {h : Heap} {r : HIR} (vr : VR h r) :
+    Tot (notSwap r) h (FreshRangeIs h.size (viewAt h r).notSwap) := by
+  unfold notSwap
+  refine Tot.bind (bigIntNewNot_fresh_tot h r.hi) ?_
+  rintro lo h1 x1 ⟨flo, vlo, elo⟩
+  refine Tot.bind (bigIntNewNot_fresh_tot h1 r.lo) ?_
+  rintro hi h2 x2 ⟨fhi, vhi, ehi⟩
+  refine Tot.pure _ ⟨flo, fun a e => ?_, ⟨vlo.ext x2, vhi⟩, ?_⟩
+  · have := fhi a e; have := x1.1; omega
+  · simp only [viewAt_eq, IR.notSwap, valO_ext vlo x2, elo, ehi, valO_ext vr.1 x1]
+
+theorem viaNot_tot {h : Heap} {f : HIR → HIR → HM HIR} {F : IR → IR → Option IR}
+    (hf : ∀ h1 a b, Ext h h1 → VR h1 a → VR h1 b → ∀ W, F (viewAt h1 a) (viewAt h1 b) = some W →
+      Tot (f a b) h1 (FreshRangeIs h1.size W))
+    {a b : HIR} (va : VR h a) (vb : VR h b) {W : IR}
+    (hW : F (viewAt h a).notSwap (viewAt h b).notSwap = some W) :
+    Tot (viaNot f a b) h (FreshRangeIs h.size W.notSwap) := by
+  unfold viaNot
+  refine Tot.bind (notSwap_tot va) ?_
+  rintro na h1 x1 ⟨_, _, vna, ena⟩
+  refine Tot.bind (notSwap_tot (vb.ext x1)) ?_
+  rintro nb h2 x2 ⟨_, _, vnb, enb⟩
+  have x12 := x1.trans x2
+  have hW2 : F (viewAt h2 na) (viewAt h2 nb) = some W := by
+    rw [viewAt_ext vna x2, ena, enb, viewAt_ext vb x1]; exact hW
+  refine Tot.bind (hf h2 na nb x12 (vna.ext x2) vnb W hW2) ?_
+  rintro w h3 x3 ⟨_, _, vw, ew⟩
+  refine Tot.mono (notSwap_tot vw) ?_
+  rintro r h4 x4 p
+  rw [ew] at p
+  exact p.mono (by have := x12.1; have := x3.1; omega)
+
+theorem orOneNegOneNonNeg_tot {h : Heap} (g : GlobalsOK h) (mk : MasksOK h) {neg non : HIR}
+    (vn : VR h neg) (vo : VR h non) {Z : IR}
+    (hZ : Interval.orOneNegOneNonNeg (viewAt h neg) (viewAt h non) = some Z) :
+    Tot (orOneNegOneNonNeg neg non) h (FreshRangeIs h.size Z) := by
+  unfold orOneNegOneNonNeg
+  unfold Interval.orOneNegOneNonNeg at hZ
+  cases hW : Interval.andOneNegOneNonNeg (viewAt h non).notSwap (viewAt h neg).notSwap with
+  | none => rw [hW] at hZ; simp at hZ
+  | some W =>
+  rw [hW] at hZ
+  simp only [Option.map_some, Option.some.injEq] at hZ
+  subst hZ
+  exact viaNot_tot (F := Interval.andOneNegOneNonNeg)
+    (fun h1 a b e va vb W hW => andOneNegOneNonNeg_tot (g.ext e) (mk.ext g e) va vb hW) vo vn hW
+
+/-! ### `split2Ways` -/
+
+def Split2Is (v : IR × IR × Bool × Bool) (r : HIR × HIR × Bool × Bool) (h' : Heap) : Prop :=
+  VR h' r.1 ∧ VR h' r.2.1 ∧ (viewAt h' r.1, viewAt h' r.2.1, r.2.2.1, r.2.2.2) = v
+
+def nonNegLoC (X : IR) : Bool := match X.lo with | some a => decide (a ≥ 0) | none => false
+def nonLoV (X : IR) : Int := match X.lo with | some a => if a > 0 then a else 0 | none => 0
+
+theorem split2_unfold (X : IR) : X.split2 =
+    if X.empty then (mkEmpty, mkEmpty, false, false)
+    else if nonNegLoC X then (mkEmpty, X, false, true)
+    else if negHiC X then (X, mkEmpty, true, false)
+    else ((⟨X.lo, some (negHiV X)⟩ : IR), (⟨some (nonLoV X), X.hi⟩ : IR), true, true) :=
+  rfl
+
+theorem split2Ways_tot {h : Heap} (g : GlobalsOK h) {x : HIR} (vx : VR h x) :
+    Tot (split2Ways x) h (Split2Is (viewAt h x).split2) := by
+  obtain ⟨vs, es⟩ := g.shared
+  unfold split2Ways
+  tot_view
+  rw [split2_unfold]
+  refine Tot.ite (fun c1 => ?_) (fun c1 => ?_)
+  · refine Tot.pure _ ⟨vs, vs, ?_⟩
+    simp only [c1, if_true, es]
+  refine Tot.ite (fun c2 => ?_) (fun c2 => ?_)
+  · have c2' : nonNegLoC (viewAt h x) = true := c2
+    refine Tot.pure _ ⟨vs, vx, ?_⟩
+    simp only [c1, c2', if_true, if_false, es, Bool.false_eq_true]
+  refine Tot.ite (fun c3 => ?_) (fun c3 => ?_)
+  · have c2' : ¬ nonNegLoC (viewAt h x) = true := c2
+    have c3' : negHiC (viewAt h x) = true := c3
+    refine Tot.pure _ ⟨vx, vs, ?_⟩
+    simp only [c1, c2', c3', if_true, if_false, es, Bool.false_eq_true]
+  have c2' : ¬ nonNegLoC (viewAt h x) = true := c2
+  have c3' : ¬ negHiC (viewAt h x) = true := c3
+  simp only [c1, c2', c3', if_false, Bool.false_eq_true]
+  refine Tot.bind (Tot.alloc _) ?_
+  rintro m1 h1 x1 ⟨rfl, s1, g1⟩
+  refine Tot.bind (Tot.alloc _) ?_
+  rintro p1 h2 x2 ⟨rfl, s2, g2⟩
+  have gm1 : h2.get h.size = -1 := by rw [x2.get (by omega)]; exact g1
+  have x12 := x1.trans x2
+  obtain ⟨vl, vh⟩ := vx
+  have eN : viewAt h2 ⟨x.lo, some (pickBelow x.hi (viewAt h x).hi (-1) h.size)⟩
+      = ⟨(viewAt h x).lo, some (negHiV (viewAt h x))⟩ := by
+    simp only [viewAt_eq, valO_ext vl x12]
+    congr 1
+    simp only [valO, Option.map_some]
+    exact congrArg some (get_pickBelow x12 vh gm1)
+  have eP : viewAt h2 ⟨some (pickAbove x.lo (viewAt h x).lo 0 h1.size), x.hi⟩
+      = ⟨some (nonLoV (viewAt h x)), (viewAt h x).hi⟩ := by
+    simp only [viewAt_eq, valO_ext vh x12]
+    congr 1
+    simp only [valO, Option.map_some]
+    exact congrArg some (get_pickAbove x12 vl g2)
+  refine Tot.pure _ ⟨⟨vl.ext x12, ?_⟩, ⟨?_, vh.ext x12⟩, ?_⟩
+  · simp only [VO_some]
+    exact pickBelow_valid x12 vh _ (by omega)
+  · simp only [VO_some]
+    exact pickAbove_valid x12 vl _ (by omega)
+  · simp only [eN, eP]
+
+/-! ### `inPlaceUnite` : the receiver's objects are updated, nothing else -/
+
+/-- same size, and every cell except possibly the one `p` points to is unchanged -/
+def OnlyAt (p : Option Addr) (h h' : Heap) : Prop :=
+  h'.size = h.size ∧ ∀ b, p ≠ some b → h'[b]? = h[b]?
+
+theorem OnlyAt.refl (p : Option Addr) (h : Heap) : OnlyAt p h h := ⟨rfl, fun _ _ => rfl⟩
+
+theorem onlyAt_set (h : Heap) (a : Addr) (v : Int) : OnlyAt (some a) h (h.setIfInBounds a v) := by
+  refine ⟨by simp, fun b hb => ?_⟩
+  have : a ≠ b := fun e => hb (by rw [e])
+  simp [Array.getElem?_setIfInBounds, this]
+
+/-- the pointer kept by one bound of `inPlaceUnite`: the receiver's, unless the argument's bound
+is nil -/
+def keepPtr (p : Option Addr) (yv : Option Int) : Option Addr :=
+  match p, yv with
+  | some a, some _ => some a
+  | _, _ => none
+
+theorem ipuTake_run (h : Heap) {p : Option Addr} (vp : VO h p) (yv : Option Int) :
+    ∃ h', ipuTake p yv h = some (keepPtr p yv, h') ∧ OnlyAt p h h' ∧
+      valO h' (keepPtr p yv) = (match p with | some _ => yv | none => none) := by
+  cases p with
+  | none => exact ⟨h, by cases yv <;> rfl, OnlyAt.refl _ _, by cases yv <;> rfl⟩
+  | some a =>
+    cases yv with
+    | none => exact ⟨h, rfl, OnlyAt.refl _ _, rfl⟩
+    | some v =>
+      refine ⟨h.setIfInBounds a v, rfl, onlyAt_set h a v, ?_⟩
+      simp only [keepPtr, valO, Option.map_some, get_set_same (vp a rfl)]
+
+theorem ipuBound_run (h : Heap) (lower : Bool) {p : Option Addr} (vp : VO h p) (yv : Option Int) :
+    ∃ h', ipuBound lower p yv h = some (keepPtr p yv, h') ∧ OnlyAt p h h' ∧
+      valO h' (keepPtr p yv) = (match valO h p, yv with
+        | some a, some b =>
+          some (if lower then (if a > b then b else a) else (if a < b then b else a))
+        | _, _ => none) := by
+  cases p with
+  | none => exact ⟨h, by cases yv <;> rfl, OnlyAt.refl _ _, by cases yv <;> rfl⟩
+  | some a =>
+    cases yv with
+    | none => exact ⟨h, rfl, OnlyAt.refl _ _, rfl⟩
+    | some b =>
+      have va := vp a rfl
+      by_cases hc : (if lower then decide (h.get a > b) else decide (h.get a < b)) = true
+      · refine ⟨h.setIfInBounds a b, ?_, onlyAt_set h a b, ?_⟩
+        · simp only [ipuBound, Bind.bind, StateT.bind, IntervalHeap.load, Option.bind_some, storeIf, hc,
+            if_true, IntervalHeap.store, Pure.pure, StateT.pure, keepPtr]
+        · simp only [keepPtr, valO, Option.map_some, get_set_same va]
+          cases lower <;> simp_all
+      · refine ⟨h, ?_, OnlyAt.refl _ _, ?_⟩
+        · simp only [ipuBound, Bind.bind, StateT.bind, IntervalHeap.load, Option.bind_some, storeIf, hc,
+            if_false, Pure.pure, StateT.pure, keepPtr, Bool.false_eq_true]
+        · simp only [keepPtr, valO, Option.map_some]
+          cases lower <;> simp_all
+
+theorem keepPtr_sub {p : Option Addr} {yv : Option Int} {a : Addr} (e : keepPtr p yv = some a) :
+    p = some a := by
+  cases p <;> cases yv <;> simp_all [keepPtr]
+
+theorem valO_onlyAt {p q : Option Addr} {h h' : Heap} (o : OnlyAt p h h')
+    (hne : ∀ a, q = some a → p ≠ some a) : valO h' q = valO h q := by
+  cases q with
+  | none => rfl
+  | some a => simp only [valO, Option.map_some, Heap.get, o.2 a (hne a rfl)]
+
+/-- the `if x.Empty() { … }` block -/
+theorem ipuEmpty_run {h : Heap} {z : HIR} (vz : VR h z)
+    (dz : ∀ a, z.lo = some a → z.hi ≠ some a) (Y : IR) :
+    ∃ z1 h2, ipuEmpty (viewAt h z).empty z Y h = some (z1, h2) ∧ h2.size = h.size ∧
+      (∀ b, z.lo ≠ some b → z.hi ≠ some b → h2[b]? = h[b]?) ∧
+      (∀ a, z1.lo = some a → z.lo = some a) ∧ (∀ a, z1.hi = some a → z.hi = some a) ∧
+      viewAt h2 z1 = (if (viewAt h z).empty then Y else viewAt h z) := by
+  cases hxe : (viewAt h z).empty with
+  | false =>
+    exact ⟨z, h, by simp only [ipuEmpty, Bool.false_eq_true, if_false]; rfl, rfl, fun _ _ _ => rfl,
+      fun _ e => e, fun _ e => e, by simp⟩
+  | true =>
+    obtain ⟨zl, zh⟩ := z
+    obtain ⟨h1, r1, o1, e1⟩ := ipuTake_run h vz.1 Y.lo
+    have vz2 : VO h1 zh := fun a e => by rw [o1.1]; exact vz.2 a e
+    obtain ⟨h2, r2, o2, e2⟩ := ipuTake_run h1 vz2 Y.hi
+    refine ⟨⟨keepPtr zl Y.lo, keepPtr zh Y.hi⟩, h2, ?_, ?_, ?_, ?_, ?_, ?_⟩
+    · simp only [ipuEmpty, if_true, Bind.bind, StateT.bind, r1, Option.bind_some, r2, Pure.pure,
+        StateT.pure]
+    · rw [o2.1, o1.1]
+    · intro b hb1 hb2
+      rw [o2.2 b hb2, o1.2 b hb1]
+    · intro a e; exact keepPtr_sub e
+    · intro a e; exact keepPtr_sub e
+    · -- both pointers are non-nil (the range is empty), so the view is `Y`
+      have hboth : ∃ a b, zl = some a ∧ zh = some b := by
+        cases zl <;> cases zh <;> simp [viewAt, IR.empty] at hxe
+        exact ⟨_, _, rfl, rfl⟩
+      obtain ⟨a, b, rfl, rfl⟩ := hboth
+      have hab : a ≠ b := fun e => dz a rfl (by rw [e])
+      simp only [if_true, viewAt_eq]
+      have q1 : valO h2 (keepPtr (some a) Y.lo) = valO h1 (keepPtr (some a) Y.lo) :=
+        valO_onlyAt o2 (fun c ec => by
+          have := keepPtr_sub ec
+          cases this
+          intro e; cases e; exact hab rfl)
+      rw [q1, e1, e2]
+
+theorem inPlaceUnite_run {h : Heap} {z : HIR} (vz : VR h z)
+    (dz : ∀ a, z.lo = some a → z.hi ≠ some a) (w : HIR) :
+    ∃ z' h', inPlaceUnite z w h = some (z', h') ∧ h'.size = h.size ∧
+      (∀ b, z.lo ≠ some b → z.hi ≠ some b → h'[b]? = h[b]?) ∧
+      (∀ a, z'.lo = some a → z.lo = some a) ∧ (∀ a, z'.hi = some a → z.hi = some a) ∧
+      viewAt h' z' = Interval.inPlaceUnite (viewAt h z) (viewAt h w) := by
+  by_cases hye : (viewAt h w).empty = true
+  · refine ⟨z, h, ?_, rfl, fun _ _ _ => rfl, fun _ e => e, fun _ e => e, ?_⟩
+    · simp only [inPlaceUnite, Bind.bind, StateT.bind, view_run, Option.bind_some, hye, if_true,
+        Pure.pure, StateT.pure]
+    · simp only [Interval.inPlaceUnite, hye, if_true]
+  · obtain ⟨z1, h2, r2, s2, f2, sl2, sh2, e2⟩ := ipuEmpty_run vz dz (viewAt h w)
+    have vz1 : VR h2 z1 := ⟨fun a e => by rw [s2]; exact vz.1 a (sl2 a e),
+      fun a e => by rw [s2]; exact vz.2 a (sh2 a e)⟩
+    have dz1 : ∀ a, z1.lo = some a → z1.hi ≠ some a := fun a e1 e2 => dz a (sl2 a e1) (sh2 a e2)
+    obtain ⟨h3, r3, o3, e3⟩ := ipuBound_run h2 true vz1.1 (viewAt h w).lo
+    have vz1' : VO h3 z1.hi := fun a e => by rw [o3.1]; exact vz1.2 a e
+    obtain ⟨h4, r4, o4, e4⟩ := ipuBound_run h3 false vz1' (viewAt h w).hi
+    refine ⟨⟨keepPtr z1.lo (viewAt h w).lo, keepPtr z1.hi (viewAt h w).hi⟩, h4, ?_, ?_, ?_, ?_, ?_, ?_⟩
+    · simp only [inPlaceUnite, Bind.bind, StateT.bind, view_run, Option.bind_some, hye, if_false,
+        r2, r3, r4, Pure.pure, StateT.pure, Bool.false_eq_true]
+    · rw [o4.1, o3.1, s2]
+    · intro b hb1 hb2
+      have n1 : z1.lo ≠ some b := fun e => hb1 (sl2 b e)
+      have n2 : z1.hi ≠ some b := fun e => hb2 (sh2 b e)
+      rw [o4.2 b n2, o3.2 b n1, f2 b hb1 hb2]
+    · intro a e; exact sl2 a (keepPtr_sub e)
+    · intro a e; exact sh2 a (keepPtr_sub e)
+    · have q1 : valO h4 (keepPtr z1.lo (viewAt h w).lo) = valO h3 (keepPtr z1.lo (viewAt h w).lo) :=
+        valO_onlyAt o4 (fun c ec e => dz1 c (keepPtr_sub ec) e)
+      have q2 : valO h3 z1.hi = valO h2 z1.hi :=
+        valO_onlyAt o3 (fun c ec e => dz1 c e ec)
+      have hl : viewAt h4 ⟨keepPtr z1.lo (viewAt h w).lo, keepPtr z1.hi (viewAt h w).hi⟩ =
+          ⟨valO h4 (keepPtr z1.lo (viewAt h w).lo), valO h4 (keepPtr z1.hi (viewAt h w).hi)⟩ := rfl
+      rw [hl, q1, e3, e4, q2]
+      unfold Interval.inPlaceUnite
+      rw [if_neg hye]
+      dsimp only
+      rw [← e2]
+      show _ = IR.mk (match valO h2 z1.lo with
+          | none => none
+          | some a => match (viewAt h w).lo with
+            | none => none
+            | some b => some (if a > b then b else a))
+        (match valO h2 z1.hi with
+          | none => none
+          | some a => match (viewAt h w).hi with
+            | none => none
+            | some b => some (if a < b then b else a))
+      congr 1
+      · cases valO h2 z1.lo <;> cases (viewAt h w).lo <;> simp
+      · cases valO h2 z1.hi <;> cases (viewAt h w).hi <;> simp
+
+/-! ### the accumulation `z.inPlaceUnite(part)` of `And` / `Or` -/
+
+theorem TotN.weaken {α : Type} {n n2 : Nat} {m : HM α} {h : Heap} {P : α → Heap → Prop}
+    (hn : n ≤ n2) (t : TotN n2 m h P) : TotN n m h P := by
+  obtain ⟨a, h', e, f, p⟩ := t
+  exact ⟨a, h', e, ⟨f.1, fun i hi => f.2 i (Nat.lt_of_lt_of_le hi hn)⟩, p⟩
+
+/-- the accumulator `z`: two distinct objects at or above `n`, holding `Zv` -/
+structure ZInv (n : Nat) (h : Heap) (z : HIR) (Zv : IR) : Prop where
+  flo : ∀ a, z.lo = some a → n ≤ a
+  fhi : ∀ a, z.hi = some a → n ≤ a
+  valid : VR h z
+  dist : ∀ a, z.lo = some a → z.hi ≠ some a
+  val : viewAt h z = Zv
+
+/-- one step of the value model's accumulation -/
+def uniteIfP (c : Bool) (z : Option IR) (part : Option IR) : Option IR :=
+  if c then z.bind fun z => part.map (Interval.inPlaceUnite z) else z
+
+theorem uniteIfP_some {c : Bool} {z part : Option IR} {Z' : IR} (e : uniteIfP c z part = some Z') :
+    ∃ Zz, z = some Zz ∧
+      ((c = false ∧ Z' = Zz) ∨ (c = true ∧ ∃ W, part = some W ∧ Z' = Interval.inPlaceUnite Zz W)) := by
+  unfold uniteIfP at e
+  cases c with
+  | false => exact ⟨Z', by simpa using e, Or.inl ⟨rfl, rfl⟩⟩
+  | true =>
+    simp only [if_true] at e
+    cases z with
+    | none => simp at e
+    | some Zz =>
+      cases part with
+      | none => simp at e
+      | some W =>
+        simp only [Option.bind_some, Option.map_some, Option.some.injEq] at e
+        exact ⟨Zz, rfl, Or.inr ⟨rfl, W, rfl, e.symm⟩⟩
+
+theorem uniteIf_totN {n : Nat} {h : Heap} (hn : n ≤ h.size) {z : HIR} {Zv : IR}
+    (inv : ZInv n h z Zv) (c : Bool) {part : HM HIR} {W : IR}
+    (hp : c = true → Tot part h (FreshRangeIs h.size W)) :
+    TotN n (uniteIf c z part) h
+      (fun z' h' => ZInv n h' z' (if c then Interval.inPlaceUnite Zv W else Zv)) := by
+  unfold uniteIf
+  cases c with
+  | false => exact TotN.pure _ (by simpa using inv)
+  | true =>
+    obtain ⟨w, h1, e1, x1, _, _, vw, ew⟩ := hp rfl
+    have vz1 := inv.valid.ext x1
+    obtain ⟨z', h2, r2, s2, f2, sl, sh, ev⟩ := inPlaceUnite_run vz1 inv.dist w
+    refine ⟨z', h2, ?_, ⟨?_, fun i hi => ?_⟩, ?_⟩
+    · simp only [if_true, Bind.bind, StateT.bind, e1, Option.bind_some, r2]
+    · rw [s2]; exact x1.1
+    · have n1 : z.lo ≠ some i := fun e => by have := inv.flo i e; omega
+      have n2 : z.hi ≠ some i := fun e => by have := inv.fhi i e; omega
+      rw [f2 i n1 n2]
+      exact x1.2 i (Nat.lt_of_lt_of_le hi hn)
+    · refine ⟨fun a e => inv.flo a (sl a e), fun a e => inv.fhi a (sh a e), ?_, ?_, ?_⟩
+      · exact ⟨fun a e => by rw [s2]; exact vz1.1 a (sl a e),
+          fun a e => by rw [s2]; exact vz1.2 a (sh a e)⟩
+      · exact fun a e1' e2' => inv.dist a (sl a e1') (sh a e2')
+      · rw [ev, viewAt_ext inv.valid x1, inv.val, ew]
+        simp
+
+theorem TotN.bind {α β : Type} {n : Nat} {h : Heap} {m : HM α} {f : α → HM β}
+    {P : α → Heap → Prop} {Q : β → Heap → Prop} (hm : TotN n m h P)
+    (hf : ∀ a h1, Frame n h h1 → P a h1 → TotN n (f a) h1 Q) : TotN n (m >>= f) h Q := by
+  obtain ⟨a, h1, e1, f1, p1⟩ := hm
+  obtain ⟨b, h2, e2, f2, p2⟩ := hf a h1 f1 p1
+  refine ⟨b, h2, ?_, f1.trans f2, p2⟩
+  simp only [Bind.bind, StateT.bind, e1, Option.bind_some, e2]
+
+theorem makeEmptyRange_zinv (h : Heap) :
+    Tot makeEmptyRange h (fun z h' => ZInv h.size h' z mkEmpty) := by
+  unfold makeEmptyRange
+  refine Tot.bind (Tot.alloc _) ?_
+  rintro a h1 x1 ⟨rfl, s1, g1⟩
+  refine Tot.bind (Tot.alloc _) ?_
+  rintro b h2 x2 ⟨rfl, s2, g2⟩
+  refine Tot.pure _ ⟨?_, ?_, ⟨?_, ?_⟩, ?_, ?_⟩
+  · intro a e; cases e; exact Nat.le_refl _
+  · intro a e; cases e; omega
+  · simp only [VO_some]; omega
+  · simp only [VO_some]; omega
+  · intro a e1 e2
+    simp only [Option.some.injEq] at e1 e2
+    omega
+  · have : h2.get h.size = 1 := by rw [x2.get (by omega)]; exact g1
+    simp only [viewAt, Option.map_some, this, g2, mkEmpty]
+
+theorem accum_step {n : Nat} {h : Heap} (hn : n ≤ h.size) {z : HIR} {Zp Zk : IR}
+    (inv : ZInv n h z Zp) {c : Bool} {part : HM HIR} {Wopt : Option IR}
+    (d : (c = false ∧ Zk = Zp) ∨ (c = true ∧ ∃ W, Wopt = some W ∧ Zk = Interval.inPlaceUnite Zp W))
+    (hp : ∀ W, Wopt = some W → Tot part h (FreshRangeIs h.size W)) :
+    TotN n (uniteIf c z part) h (fun z' h' => ZInv n h' z' Zk) := by
+  rcases d with ⟨rfl, rfl⟩ | ⟨rfl, W, eW, rfl⟩
+  · have := uniteIf_totN hn inv false (part := part) (W := mkEmpty) (fun e => by cases e)
+    simpa using this
+  · have := uniteIf_totN hn inv true (part := part) (W := W) (fun _ => hp W eW)
+    simpa using this
+
+/-- the whole accumulation: `z := makeEmptyRange(); if c1 { z.inPlaceUnite(p1) } … ; return z` -/
+theorem accum_tot {h : Heap} {p1 p2 p3 p4 : HM HIR} {c1 c2 c3 c4 : Bool}
+    {W1 W2 W3 W4 : Option IR} {Z : IR}
+    (hZ : uniteIfP c4 (uniteIfP c3 (uniteIfP c2 (uniteIfP c1 (some mkEmpty) W1) W2) W3) W4 = some Z)
+    (q1 : ∀ h', Ext h h' → ∀ W, W1 = some W → Tot p1 h' (FreshRangeIs h'.size W))
+    (q2 : ∀ h', Ext h h' → ∀ W, W2 = some W → Tot p2 h' (FreshRangeIs h'.size W))
+    (q3 : ∀ h', Ext h h' → ∀ W, W3 = some W → Tot p3 h' (FreshRangeIs h'.size W))
+    (q4 : ∀ h', Ext h h' → ∀ W, W4 = some W → Tot p4 h' (FreshRangeIs h'.size W)) :
+    Tot (do
+      let z ← makeEmptyRange
+      let z ← uniteIf c1 z p1
+      let z ← uniteIf c2 z p2
+      let z ← uniteIf c3 z p3
+      uniteIf c4 z p4) h (RangeIs Z) := by
+  obtain ⟨Z3, e3, d4⟩ := uniteIfP_some hZ
+  obtain ⟨Z2, e2, d3⟩ := uniteIfP_some e3
+  obtain ⟨Z1, e1, d2⟩ := uniteIfP_some e2
+  obtain ⟨Z0, e0, d1⟩ := uniteIfP_some e1
+  cases e0
+  apply TotN.toTot
+  refine TotN.bind_tot (Nat.le_refl _) (makeEmptyRange_zinv h) ?_
+  intro z0 h0 x0 inv0
+  have toExt : ∀ {h' : Heap}, Frame h.size h h' → Ext h h' := fun f => ⟨f.1, f.2⟩
+  refine TotN.bind (accum_step x0.1 inv0 d1 (q1 h0 x0)) ?_
+  intro z1 h1 f1 inv1
+  have x1 : Ext h h1 := toExt ((Frame.ofExt (Nat.le_refl _) x0).trans f1)
+  refine TotN.bind (accum_step x1.1 inv1 d2 (q2 h1 x1)) ?_
+  intro z2 h2 f2 inv2
+  have x2 : Ext h h2 := toExt ((Frame.ofExt (Nat.le_refl _) x1).trans f2)
+  refine TotN.bind (accum_step x2.1 inv2 d3 (q3 h2 x2)) ?_
+  intro z3 h3 f3 inv3
+  have x3 : Ext h h3 := toExt ((Frame.ofExt (Nat.le_refl _) x2).trans f3)
+  refine TotN.mono (accum_step x3.1 inv3 d4 (q4 h3 x3)) ?_
+  intro z4 h4 inv4
+  exact ⟨inv4.valid, inv4.val⟩
+
+/-! ### `And`, `Or` -/
+
+theorem and_unfold (x y : IR) : Interval.and x y =
+    if x.empty || y.empty then some mkEmpty
+    else if !x.containsNegative && !y.containsNegative then Interval.andBothNonNeg x y
+    else
+      uniteIfP (x.split2.2.2.2 && y.split2.2.2.2)
+        (uniteIfP (x.split2.2.2.2 && y.split2.2.2.1)
+          (uniteIfP (x.split2.2.2.1 && y.split2.2.2.2)
+            (uniteIfP (x.split2.2.2.1 && y.split2.2.2.1) (some mkEmpty)
+              ((Interval.orBothNonNeg x.split2.1.notSwap y.split2.1.notSwap).map IR.notSwap))
+            (Interval.andOneNegOneNonNeg x.split2.1 y.split2.2.1))
+          (Interval.andOneNegOneNonNeg y.split2.1 x.split2.2.1))
+        (Interval.andBothNonNeg x.split2.2.1 y.split2.2.1) := by
+  unfold Interval.and uniteIfP
+  simp only [Option.map_map]
+  rfl
+
+theorem or_unfold (x y : IR) : Interval.or x y =
+    if x.empty || y.empty then some mkEmpty
+    else if !x.containsNegative && !y.containsNegative then Interval.orBothNonNeg x y
+    else
+      uniteIfP (x.split2.2.2.2 && y.split2.2.2.2)
+        (uniteIfP (x.split2.2.2.2 && y.split2.2.2.1)
+          (uniteIfP (x.split2.2.2.1 && y.split2.2.2.2)
+            (uniteIfP (x.split2.2.2.1 && y.split2.2.2.1) (some mkEmpty)
+              ((Interval.andBothNonNeg x.split2.1.notSwap y.split2.1.notSwap).map IR.notSwap))
+            (Interval.orOneNegOneNonNeg x.split2.1 y.split2.2.1))
+          (Interval.orOneNegOneNonNeg y.split2.1 x.split2.2.1))
+        (Interval.orBothNonNeg x.split2.2.1 y.split2.2.1) := by
+  unfold Interval.or uniteIfP
+  simp only [Option.map_map]
+  rfl
+
+theorem and_tot {h : Heap} (g : GlobalsOK h) (mk : MasksOK h) {x y : HIR} (vx : VR h x)
+    (vy : VR h y) {Z : IR} (hZ : Interval.and (viewAt h x) (viewAt h y) = some Z) :
+    Tot (IntervalHeap.and x y) h (RangeIs Z) := by
+  rw [and_unfold] at hZ
+  unfold IntervalHeap.and
+  refine Tot.bind_view _ ?_
+  refine Tot.bind_view _ ?_
+  refine Tot.ite (fun c1 => ?_) (fun c1 => ?_)
+  · rw [if_pos c1] at hZ
+    cases hZ
+    exact makeEmptyRange_tot h
+  rw [if_neg c1] at hZ
+  refine Tot.ite (fun c2 => ?_) (fun c2 => ?_)
+  · rw [if_pos c2] at hZ
+    exact Tot.mono (andBothNonNeg_tot vx vy hZ) (fun z h' _ p => ⟨p.2.2.1, p.2.2.2⟩)
+  rw [if_neg c2] at hZ
+  refine Tot.bind (split2Ways_tot g vx) ?_
+  rintro ⟨negX, nonX, hnx, hox⟩ h1 x1 ⟨vnx, vox, esx⟩
+  refine Tot.bind (split2Ways_tot (g.ext x1) (vy.ext x1)) ?_
+  rintro ⟨negY, nonY, hny, hoy⟩ h2 x2 ⟨vny, voy, esy⟩
+  dsimp only at vnx vox esx vny voy esy
+  rw [viewAt_ext vy x1] at esy
+  rw [← esx, ← esy] at hZ
+  dsimp only at hZ
+  have vnx2 := vnx.ext x2
+  have vox2 := vox.ext x2
+  rw [← viewAt_ext vnx x2, ← viewAt_ext vox x2] at hZ
+  have g2 := (g.ext x1).ext x2
+  have mk2 := ((mk.ext g x1).ext (g.ext x1) x2)
+  refine accum_tot hZ ?_ ?_ ?_ ?_
+  · intro h' e W hW
+    cases hW' : Interval.orBothNonNeg (viewAt h2 negX).notSwap (viewAt h2 negY).notSwap with
+    | none => rw [hW'] at hW; simp at hW
+    | some W' =>
+      rw [hW'] at hW
+      simp only [Option.map_some, Option.some.injEq] at hW
+      subst hW
+      exact viaNot_tot (F := Interval.orBothNonNeg)
+        (fun h1 a b _ va vb W hW => orBothNonNeg_tot va vb hW) (vnx2.ext e) (vny.ext e)
+        (by rw [viewAt_ext vnx2 e, viewAt_ext vny e]; exact hW')
+  · intro h' e W hW
+    exact andOneNegOneNonNeg_tot (g2.ext e) (mk2.ext g2 e) (vnx2.ext e) (voy.ext e)
+      (by rw [viewAt_ext vnx2 e, viewAt_ext voy e]; exact hW)
+  · intro h' e W hW
+    exact andOneNegOneNonNeg_tot (g2.ext e) (mk2.ext g2 e) (vny.ext e) (vox2.ext e)
+      (by rw [viewAt_ext vny e, viewAt_ext vox2 e]; exact hW)
+  · intro h' e W hW
+    exact andBothNonNeg_tot (vox2.ext e) (voy.ext e)
+      (by rw [viewAt_ext vox2 e, viewAt_ext voy e]; exact hW)
+
+theorem or_tot {h : Heap} (g : GlobalsOK h) (mk : MasksOK h) {x y : HIR} (vx : VR h x)
+    (vy : VR h y) {Z : IR} (hZ : Interval.or (viewAt h x) (viewAt h y) = some Z) :
+    Tot (IntervalHeap.or x y) h (RangeIs Z) := by
+  rw [or_unfold] at hZ
+  unfold IntervalHeap.or
+  refine Tot.bind_view _ ?_
+  refine Tot.bind_view _ ?_
+  refine Tot.ite (fun c1 => ?_) (fun c1 => ?_)
+  · rw [if_pos c1] at hZ
+    cases hZ
+    exact makeEmptyRange_tot h
+  rw [if_neg c1] at hZ
+  refine Tot.ite (fun c2 => ?_) (fun c2 => ?_)
+  · rw [if_pos c2] at hZ
+    exact Tot.mono (orBothNonNeg_tot vx vy hZ) (fun z h' _ p => ⟨p.2.2.1, p.2.2.2⟩)
+  rw [if_neg c2] at hZ
+  refine Tot.bind (split2Ways_tot g vx) ?_
+  rintro ⟨negX, nonX, hnx, hox⟩ h1 x1 ⟨vnx, vox, esx⟩
+  refine Tot.bind (split2Ways_tot (g.ext x1) (vy.ext x1)) ?_
+  rintro ⟨negY, nonY, hny, hoy⟩ h2 x2 ⟨vny, voy, esy⟩
+  dsimp only at vnx vox esx vny voy esy
+  rw [viewAt_ext vy x1] at esy
+  rw [← esx, ← esy] at hZ
+  dsimp only at hZ
+  have vnx2 := vnx.ext x2
+  have vox2 := vox.ext x2
+  rw [← viewAt_ext vnx x2, ← viewAt_ext vox x2] at hZ
+  have g2 := (g.ext x1).ext x2
+  have mk2 := ((mk.ext g x1).ext (g.ext x1) x2)
+  refine accum_tot hZ ?_ ?_ ?_ ?_
+  · intro h' e W hW
+    cases hW' : Interval.andBothNonNeg (viewAt h2 negX).notSwap (viewAt h2 negY).notSwap with
+    | none => rw [hW'] at hW; simp at hW
+    | some W' =>
+      rw [hW'] at hW
+      simp only [Option.map_some, Option.some.injEq] at hW
+      subst hW
+      exact viaNot_tot (F := Interval.andBothNonNeg)
+        (fun h1 a b _ va vb W hW => andBothNonNeg_tot va vb hW) (vnx2.ext e) (vny.ext e)
+        (by rw [viewAt_ext vnx2 e, viewAt_ext vny e]; exact hW')
+  · intro h' e W hW
+    exact orOneNegOneNonNeg_tot (g2.ext e) (mk2.ext g2 e) (vnx2.ext e) (voy.ext e)
+      (by rw [viewAt_ext vnx2 e, viewAt_ext voy e]; exact hW)
+  · intro h' e W hW
+    exact orOneNegOneNonNeg_tot (g2.ext e) (mk2.ext g2 e) (vny.ext e) (vox2.ext e)
+      (by rw [viewAt_ext vny e, viewAt_ext vox2 e]; exact hW)
+  · intro h' e W hW
+    exact orBothNonNeg_tot (vox2.ext e) (voy.ext e)
+      (by rw [viewAt_ext vox2 e, viewAt_ext voy e]; exact hW)
+
+/-! ### `setup` also provides the mask objects -/
+
+theorem setup_ext (X Y : IR) : Ext globalsHeap (setup X Y).2.2 := by
+  obtain ⟨ea, _, _⟩ := put_spec globalsHeap X.lo
+  obtain ⟨eb, _, _⟩ := put_spec (put globalsHeap X.lo).2 X.hi
+  obtain ⟨ec, _, _⟩ := put_spec (put (put globalsHeap X.lo).2 X.hi).2 Y.lo
+  obtain ⟨ed, _, _⟩ := put_spec (put (put (put globalsHeap X.lo).2 X.hi).2 Y.lo).2 Y.hi
+  exact ea.trans (eb.trans (ec.trans ed))
+
+theorem setup_masks (X Y : IR) : MasksOK (setup X Y).2.2 :=
+  globalsHeap_masks.ext globalsHeap_ok (setup_ext X Y)
+
 end WuffsVerif.IntervalHeap
